@@ -72,21 +72,42 @@ type Block struct {
 	Idxs     []Idx
 }
 
+// Field locates one length / count / offset / type field of the file (for fault enumeration).
+// For fields inside a log block, Off is relative to the INFLATED block (Block >= 0, InLog true).
+type Field struct {
+	Name  string `json:"name"`
+	Kind  string `json:"kind"` // byte, u16, u24, u64, varint
+	Off   int    `json:"off"`
+	Len   int    `json:"len"`
+	Val   uint64 `json:"val"`
+	Block int    `json:"block"` // index into Blocks, -1 for header / footer
+	InLog bool   `json:"inlog"`
+}
+
 type File struct {
-	Version     int
-	BlockSize   uint32
-	Min, Max    uint64
-	HashID      string
-	HashSize    int
-	HeaderSize  int
-	FooterStart uint64
-	Size        uint64
+	Fields       []Field
+	RecordFields bool
+	valField     func(name string, rel, n int, val uint64)
+	Version      int
+	BlockSize    uint32
+	Min, Max     uint64
+	HashID       string
+	HashSize     int
+	HeaderSize   int
+	FooterStart  uint64
+	Size         uint64
 
 	RefIndexOff, ObjOff, ObjIndexOff, LogOff, LogIndexOff uint64
 	ObjIDLen                                              int
 
 	Blocks   []Block
 	Problems []string
+}
+
+func (f *File) field(name, kind string, off, n int, val uint64, block int, inlog bool) {
+	if f.RecordFields {
+		f.Fields = append(f.Fields, Field{name, kind, off, n, val, block, inlog})
+	}
 }
 
 func (f *File) problem(format string, a ...interface{}) {
@@ -129,8 +150,13 @@ func ftrSize(v int) int {
 
 // Parse decodes a whole file. A non-nil error means the file could not be
 // walked to its end; Problems lists well-formedness defects found on the way.
-func Parse(data []byte) (*File, error) {
-	f := &File{Size: uint64(len(data))}
+// ParseFields is Parse that also records where every structural field lives.
+func ParseFields(data []byte) (*File, error) { return parse(data, true) }
+
+func Parse(data []byte) (*File, error) { return parse(data, false) }
+
+func parse(data []byte, fields bool) (*File, error) {
+	f := &File{Size: uint64(len(data)), RecordFields: fields}
 	if len(data) < 24+68 {
 		return f, fmt.Errorf("file too short: %d bytes", len(data))
 	}
@@ -161,6 +187,10 @@ func Parse(data []byte) (*File, error) {
 		}
 	}
 	f.FooterStart = uint64(len(data) - fs)
+	f.field("header.version", "byte", 4, 1, uint64(f.Version), -1, false)
+	f.field("header.block_size", "u24", 5, 3, uint64(f.BlockSize), -1, false)
+	f.field("header.min_update_index", "u64", 8, 8, f.Min, -1, false)
+	f.field("header.max_update_index", "u64", 16, 8, f.Max, -1, false)
 	foot := data[f.FooterStart:]
 	if !bytes.Equal(foot[:hs], data[:hs]) {
 		f.problem("footer does not repeat the header")
@@ -172,6 +202,14 @@ func Parse(data []byte) (*File, error) {
 	f.ObjIndexOff = binary.BigEndian.Uint64(foot[p+16:])
 	f.LogOff = binary.BigEndian.Uint64(foot[p+24:])
 	f.LogIndexOff = binary.BigEndian.Uint64(foot[p+32:])
+	fo := int(f.FooterStart) + p
+	f.field("footer.ref_index_position", "u64", fo, 8, f.RefIndexOff, -1, false)
+	f.field("footer.obj_position_and_id_len", "u64", fo+8, 8, o, -1, false)
+	f.field("footer.obj_index_position", "u64", fo+16, 8, f.ObjIndexOff, -1, false)
+	f.field("footer.log_position", "u64", fo+24, 8, f.LogOff, -1, false)
+	f.field("footer.log_index_position", "u64", fo+32, 8, f.LogIndexOff, -1, false)
+	f.field("footer.version", "byte", int(f.FooterStart)+4, 1, uint64(f.Version), -1, false)
+	f.field("footer.block_size", "u24", int(f.FooterStart)+5, 3, uint64(f.BlockSize), -1, false)
 	crc := binary.BigEndian.Uint32(foot[p+40:])
 	if want := crc32.ChecksumIEEE(foot[:p+40]); crc != want {
 		f.problem("footer CRC %08x, computed %08x", crc, want)
@@ -220,6 +258,17 @@ func (f *File) parseBlock(data []byte, pos uint64) (*Block, uint64, error) {
 	}
 	blen := int(blk[hoff+1])<<16 | int(blk[hoff+2])<<8 | int(blk[hoff+3])
 	b := &Block{Type: typ, Off: pos, Len: blen}
+	bi := len(f.Blocks)
+	inlog := typ == 'g'
+	// file offset of a body offset (for log blocks body offsets are kept: the body is compressed in the file)
+	fo := func(rel int) int {
+		if inlog {
+			return rel
+		}
+		return int(pos) + rel
+	}
+	f.field("block.type", "byte", int(pos)+hoff, 1, uint64(typ), bi, false)
+	f.field("block.len", "u24", int(pos)+hoff+1, 3, uint64(blen), bi, false)
 	if blen < hoff+4+2 {
 		return nil, 0, fmt.Errorf("block_len %d too small", blen)
 	}
@@ -289,9 +338,13 @@ func (f *File) parseBlock(data []byte, pos uint64) (*Block, uint64, error) {
 	if rstart < hoff+4 {
 		return nil, 0, fmt.Errorf("restart table (%d entries) larger than block", rc)
 	}
+	f.field("block.restart_count", "u16", fo(len(body)-2), 2, uint64(rc), bi, inlog)
 	for i := 0; i < rc; i++ {
 		r := body[rstart+3*i:]
 		b.Restarts = append(b.Restarts, int(r[0])<<16|int(r[1])<<8|int(r[2]))
+		if i < 4 || i == rc-1 {
+			f.field("block.restart_offset", "u24", fo(rstart+3*i), 3, uint64(b.Restarts[i]), bi, inlog)
+		}
 	}
 	if rc == 0 {
 		f.problem("block at %d: restart_count 0", pos)
@@ -308,12 +361,14 @@ func (f *File) parseBlock(data []byte, pos uint64) (*Block, uint64, error) {
 		if !ok {
 			return nil, 0, fmt.Errorf("record at %d: bad prefix varint", off)
 		}
+		f.field("record.prefix_length", "varint", fo(off), n, pl, bi, inlog)
 		buf = buf[n:]
-		sv, n, ok := varint(buf)
+		sv, n2, ok := varint(buf)
 		if !ok {
 			return nil, 0, fmt.Errorf("record at %d: bad suffix varint", off)
 		}
-		buf = buf[n:]
+		f.field("record.suffix_length_and_type", "varint", fo(off+n), n2, sv, bi, inlog)
+		buf = buf[n2:]
 		r.PrefixLen, r.SuffixLen, r.ValType = int(pl), int(sv>>3), int(sv&7)
 		if r.PrefixLen > len(last) {
 			return nil, 0, fmt.Errorf("record at %d: prefix %d longer than previous key", off, r.PrefixLen)
@@ -324,6 +379,9 @@ func (f *File) parseBlock(data []byte, pos uint64) (*Block, uint64, error) {
 		r.Key = last[:r.PrefixLen] + string(buf[:r.SuffixLen])
 		buf = buf[r.SuffixLen:]
 		var err error
+		// fields of the value: recorded by the value parsers through valField (offsets relative to the value start)
+		vstart := len(recs) - len(buf)
+		f.valField = func(name string, rel, n int, val uint64) { f.field(name, "varint", fo(vstart+rel), n, val, bi, inlog) }
 		switch typ {
 		case 'r':
 			buf, err = f.ref(b, r, buf)
@@ -349,6 +407,8 @@ func (f *File) ref(b *Block, r Rec, buf []byte) ([]byte, error) {
 	if !ok {
 		return nil, fmt.Errorf("bad update_index_delta")
 	}
+	f.valField("ref.update_index_delta", 0, n, d)
+	start := buf
 	buf = buf[n:]
 	ref := Ref{Name: r.Key, Idx: f.Min + d, Kind: r.ValType}
 	switch r.ValType {
@@ -368,6 +428,7 @@ func (f *File) ref(b *Block, r Rec, buf []byte) ([]byte, error) {
 		if !ok || uint64(len(buf)-n) < l {
 			return nil, fmt.Errorf("bad symref target")
 		}
+		f.valField("ref.target_length", len(start)-len(buf), n, l)
 		ref.Target = string(buf[n : n+int(l)])
 		buf = buf[n+int(l):]
 	default:
@@ -398,12 +459,19 @@ func (f *File) log(b *Block, r Rec, buf []byte) ([]byte, error) {
 		if len(buf) < 2*f.HashSize {
 			return nil, fmt.Errorf("short log hashes")
 		}
+		start := buf
 		lg.Old = append([]byte{}, buf[:f.HashSize]...)
 		lg.New = append([]byte{}, buf[f.HashSize:2*f.HashSize]...)
 		buf = buf[2*f.HashSize:]
 		var ok bool
+		if l, n, k := varint(buf); k {
+			f.valField("log.name_length", len(start)-len(buf), n, l)
+		}
 		if lg.User, buf, ok = str(buf); !ok {
 			return nil, fmt.Errorf("bad log name")
+		}
+		if l, n, k := varint(buf); k {
+			f.valField("log.email_length", len(start)-len(buf), n, l)
 		}
 		if lg.Email, buf, ok = str(buf); !ok {
 			return nil, fmt.Errorf("bad log email")
@@ -412,6 +480,7 @@ func (f *File) log(b *Block, r Rec, buf []byte) ([]byte, error) {
 		if !ok {
 			return nil, fmt.Errorf("bad log time")
 		}
+		f.valField("log.time", len(start)-len(buf), n, t)
 		lg.Time = t
 		buf = buf[n:]
 		if len(buf) < 2 {
@@ -419,6 +488,9 @@ func (f *File) log(b *Block, r Rec, buf []byte) ([]byte, error) {
 		}
 		lg.TZ = int16(binary.BigEndian.Uint16(buf))
 		buf = buf[2:]
+		if l, n, k := varint(buf); k {
+			f.valField("log.message_length", len(start)-len(buf), n, l)
+		}
 		if lg.Message, buf, ok = str(buf); !ok {
 			return nil, fmt.Errorf("bad log message")
 		}
@@ -431,11 +503,13 @@ func (f *File) log(b *Block, r Rec, buf []byte) ([]byte, error) {
 
 func (f *File) obj(b *Block, r Rec, buf []byte) ([]byte, error) {
 	cnt := uint64(r.ValType)
+	start := buf
 	if cnt == 0 {
 		c, n, ok := varint(buf)
 		if !ok {
 			return nil, fmt.Errorf("bad cnt_large")
 		}
+		f.valField("obj.cnt_large", 0, n, c)
 		cnt = c
 		buf = buf[n:]
 	}
@@ -445,6 +519,9 @@ func (f *File) obj(b *Block, r Rec, buf []byte) ([]byte, error) {
 		d, n, ok := varint(buf)
 		if !ok {
 			return nil, fmt.Errorf("bad position_delta")
+		}
+		if i < 3 {
+			f.valField("obj.position_delta", len(start)-len(buf), n, d)
 		}
 		buf = buf[n:]
 		if i > 0 {
@@ -465,6 +542,7 @@ func (f *File) idx(b *Block, r Rec, buf []byte) ([]byte, error) {
 	if !ok {
 		return nil, fmt.Errorf("bad block_position")
 	}
+	f.valField("index.block_position", 0, n, p)
 	b.Idxs = append(b.Idxs, Idx{LastKey: r.Key, Off: p})
 	return buf[n:], nil
 }
